@@ -11,6 +11,7 @@ from .c15_programs import (COVER, ERRORS, NONFINITE, random_program, literal_edg
 
 TRUSTED = [
     "Coq 8.16.1 kernel (coqc, vm_compute); no axioms: every theorem is 'Closed under the global context'",
+    "theorems about arbitrary documents (c15_de_wt, c15_reserialise_stable, c15_staged_eq_direct_docs) assume distinct object keys (jnodup): on duplicate keys real serde errors (struct) or keeps the last entry (map), the model keeps the first; tested on edited documents every run",
     "translators vplib/translate/gen_serde.py (type/attribute scanner over pr/*.rs, lr.rs, span.rs, generic.rs, ir/rq/*.rs, ir/generic.rs, ir/pl/extra.rs; fail closed on unmodelled attributes / type constructors; shape check of the hand-written Span and Ident impls) and gen_entry.py (call chains of lib.rs)",
     "modelled, not verified: coq/Model/Serde.v re-states serde-derive's rules (externally tagged enums, flatten of an enum through FlatMapSerializer/FlatMapDeserializer, skip_serializing_if, default, missing Option field = None); validated on every run against real serde on the implementation's own JSON and on descriptor-generated values",
     "serde_json's text layer (escaping, number printing and parsing: a finite f64 survives print/parse; ryu) and semver::VersionReq's parse . display = id",
@@ -62,6 +63,64 @@ def jnodup(j):
     if isinstance(j, list):
         return all(jnodup(x) for x in j)
     return True
+
+
+def _paths(j, here=()):
+    """all node paths of a JSON tree (python mirror encoding)"""
+    yield here
+    if isinstance(j, tuple) and j[0] == "obj":
+        for i, (_, x) in enumerate(j[1]):
+            yield from _paths(x, here + (i,))
+    elif isinstance(j, list):
+        for i, x in enumerate(j):
+            yield from _paths(x, here + (i,))
+
+
+def _get(j, path):
+    for i in path:
+        j = j[1][i][1] if isinstance(j, tuple) else j[i]
+    return j
+
+
+def _set(j, path, new):
+    if not path:
+        return new
+    i = path[0]
+    if isinstance(j, tuple):
+        kvs = list(j[1]); kvs[i] = (kvs[i][0], _set(kvs[i][1], path[1:], new)); return ("obj", kvs)
+    out = list(j); out[i] = _set(out[i], path[1:], new); return out
+
+
+def perturb(j, rng):
+    """one edit of a document that a hand-written client could make, keeping object keys distinct:
+    reorder keys / drop a key / add an unknown key / null a value / change a scalar's kind / drop or add an array element"""
+    paths = list(_paths(j))
+    objs = [p for p in paths if isinstance(_get(j, p), tuple) and _get(j, p)[1]]
+    arrs = [p for p in paths if isinstance(_get(j, p), list)]
+    kind = rng.choice(["shuffle", "shuffle", "drop", "drop", "unknown", "null", "null", "scalar", "arr-drop", "arr-dup"])
+    if kind in ("shuffle", "drop", "unknown") and objs:
+        p = rng.choice(objs); kvs = list(_get(j, p)[1])
+        if kind == "shuffle":
+            rng.shuffle(kvs)
+        elif kind == "drop":
+            kvs.pop(rng.randrange(len(kvs)))
+        else:
+            kvs.insert(rng.randrange(len(kvs) + 1), ("zz_unknown", rng.choice([1, "x", None, [], ("obj", [])])))
+        return _set(j, p, ("obj", kvs)), kind
+    if kind in ("arr-drop", "arr-dup") and arrs:
+        p = rng.choice(arrs); l = list(_get(j, p))
+        if kind == "arr-drop" and l:
+            l.pop(rng.randrange(len(l)))
+        elif l:
+            l.insert(rng.randrange(len(l) + 1), rng.choice(l))
+        else:
+            l.append(rng.choice([None, "x", True]))
+        return _set(j, p, l), kind
+    p = rng.choice(paths)
+    if kind == "null":
+        return _set(j, p, None), "null"
+    # never an integer: serde reads an integer where a float is expected (not modelled, see design)
+    return _set(j, p, rng.choice(["str", True, "1:0-1", [], ["a", "b"], "Null", 1.5])), "scalar"
 
 
 def canon_maps(v):
@@ -266,6 +325,55 @@ def run():
             ck.stat("generated-values", kind + ":agree")
             if S.json_size(j) <= 120 and len(small) < 4000:
                 small.append((kind, None, j, v))
+        # ------------------------------------------------------------------ 3b. documents prqlc did NOT write
+        # c15_de_wt / c15_reserialise_stable / c15_staged_eq_direct_docs speak about every document the model's `de`
+        # accepts (a language binding may send anything): `de` itself is compared with real serde on edited documents
+        # -- accept / reject must agree, and when both accept, real serde's re-serialisation is the model's
+        hit_before = set(env.hit)
+        preqs, pmetas = [], []
+        for kind, v, j in metas[:ck.n(700, 3000)]:
+            j2, how = perturb(j, ck.rng)
+            if not jnodup(j2):
+                continue
+            if any(isinstance(_get(j2, p), tuple) and any(k == "version" and isinstance(x, str) and x not in S.VERSION_REQS for k, x in _get(j2, p)[1])
+                   for p in _paths(j2)):
+                # semver::VersionReq is a trusted opaque codec: its model is `any string`, meant for texts that ARE a
+                # VersionReq's Display form; an edit that writes another text there is outside the model's domain
+                ck.stat("edited-documents", "out-of-model:VersionReq-text(trusted codec)"); continue
+            root = env.roots[kind]
+            try:
+                mv = env.de(root, j2, root[1])
+            except S.DeErr as ex:
+                mv = None
+            preqs.append({"kind": kind, "json": S.dumps(j2)})
+            pmetas.append((kind, how, mv))
+        env.hit = hit_before     # edited documents do not count towards descriptor coverage
+        pans = harness("c15_reser", preqs)
+        for (kind, how, mv), a, rq_ in zip(pmetas, pans, preqs):
+            root = env.roots[kind]
+            ck.count("edited-documents", rq_["json"])
+            case = {"kind": kind, "edit": how, "json": rq_["json"][:1500]}
+            if "ok" not in a and "de_err" not in a:
+                case["got"] = a
+                ck.violation("real serde fails (not a clean rejection) on an edited document", case); continue
+            if ("ok" in a) != (mv is not None):
+                case["got"] = {"model": "accepts" if mv is not None else "rejects", "real": a if "ok" not in a else "accepts"}
+                ck.violation("model `de` and real serde disagree on accepting an edited %s document (%s)" % (kind.upper(), how), case); continue
+            if mv is None:
+                ck.stat("edited-documents", how + ":both-reject"); continue
+            try:
+                v2 = env.de(root, S.loads(a["ok"]), root[1])
+            except (ValueError, S.DeErr) as ex:
+                case["got"] = str(ex)
+                ck.violation("model cannot read real serde's re-serialisation of an edited document", case); continue
+            if S.norm_value(canon_maps(v2)) != S.norm_value(canon_maps(mv)):
+                case["got"] = {"reser": a["ok"][:800]}
+                ck.violation("model `de` and real serde read different values from an edited document (%s)" % how, case); continue
+            if not a.get("value_eq_after_second_trip"):
+                case["got"] = "Rust value changed on the second trip"
+                ck.violation("real serde: an accepted edited document is not stable under a second trip (c15_reserialise_stable)", case); continue
+            ck.stat("edited-documents", how + ":both-accept-same-value")
+        env.hit = hit_before
         ck.coverage["descriptor_coverage_from_generated_values"] = env.coverage()
         env.hit |= src_hit
         cov_all = env.coverage()
@@ -376,7 +484,7 @@ def run():
     ck.assumptions += [
         "error composition differs between the paths by design (display/location are only set by compile / prql_to_pl): compared on kind, code, reason, hints, span",
         "a panic in both paths with the same message counts as agreement (C12 owns panics)",
-        "json_ok (no non-finite float) is a hypothesis of staged_eq_direct; the programs violating it are exactly the F14 class",
+        "json_ok (no non-finite float) is a hypothesis of c15_staged_eq_direct_partial, and `the stage value is read from a document` the one of c15_staged_eq_direct_docs; the programs violating them are exactly the F14 class (stream model-de-ser: both-reject)",
         "each path is a function of its input (C11): a staged/direct mismatch is re-run 12 times and not reported when the outputs of one path already vary between calls and the two sets of outputs overlap (hash-iteration-order findings of C11)",
     ]
     ck.finish(TRUSTED, "a case is (program, dialect, format, signature) for staged-vs-direct, a JSON document for the model streams; non-trivial = compile() succeeded / the document is distinct; documents are hashed by text")
